@@ -188,7 +188,23 @@ ElemTemplate::startElement(StylesheetExecutionContext&  executionContext) const
 {
     ParentType::startElement(executionContext);
 
-    executionContext.pushCurrentTemplate(this);
+    // A template rule chosen by matching a pattern becomes the current
+    // template rule.  xsl:call-template does not change it (XSLT 5.6), so
+    // xsl:apply-imports in a called template still refers to the rule that
+    // was current in the caller.
+    const ElemTemplateElement* const    theInvoker =
+        executionContext.getInvoker();
+
+    if (theInvoker != 0 &&
+        (theInvoker->getXSLToken() == StylesheetConstructionContext::ELEMNAME_CALL_TEMPLATE ||
+         theInvoker->hasDirectTemplate() == true))
+    {
+        executionContext.pushCurrentTemplate(executionContext.getCurrentTemplate());
+    }
+    else
+    {
+        executionContext.pushCurrentTemplate(this);
+    }
 
     return beginExecuteChildren(executionContext);
 }
